@@ -128,11 +128,15 @@ impl<'buf, 'fds> Unmarshal<'buf, 'fds> for &'buf [u8] {
     }
 }
 
-unsafe fn unmarshal_slice<'a, 'buf, 'fds, E>(
-    ctx: &'a mut UnmarshalContext<'fds, 'buf>,
-) -> unmarshal::UnmarshalResult<&'a [E]>
+/// Reads the bytes of an array whose elements are laid out in the message exactly like in a Rust slice
+/// (see `Signature::valid_slice`). Returns the bytes of the elements and the number of elements.
+/// The bytes are aligned relative to the start of the message, which says nothing about where they
+/// are in memory, so they must not be reinterpreted as a `&[E]` without checking that first.
+fn unmarshal_slice_bytes<'buf, 'fds, E>(
+    ctx: &mut UnmarshalContext<'fds, 'buf>,
+) -> unmarshal::UnmarshalResult<(&'buf [u8], usize)>
 where
-    E: Unmarshal<'buf, 'fds>, //+ 'fds + 'buf
+    E: Unmarshal<'buf, 'fds>,
 {
     let bytes_in_array = ctx.read_u32()? as usize;
     let alignment = E::alignment();
@@ -144,23 +148,35 @@ where
     }
     let content_slice = ctx.read_raw(bytes_in_array)?;
 
-    // cast the slice from u8 to the target type
-    let elem_cnt = bytes_in_array / alignment;
-    let ptr = content_slice.as_ptr().cast::<E>();
-    let slice = std::slice::from_raw_parts(ptr, elem_cnt);
+    Ok((content_slice, bytes_in_array / alignment))
+}
 
-    Ok(slice)
+/// Copies the elements out of the message. This works wherever the bytes are in memory.
+///
+/// # Safety
+/// `E::valid_slice()` must have returned true for the byteorder of the message
+unsafe fn copy_slice_bytes<E>(content_slice: &[u8], elem_cnt: usize) -> Vec<E> {
+    let mut ret = Vec::<E>::with_capacity(elem_cnt);
+    let dst = ret.as_mut_ptr().cast::<u8>();
+    std::ptr::copy_nonoverlapping(content_slice.as_ptr(), dst, content_slice.len());
+    ret.set_len(elem_cnt);
+    ret
 }
 
 impl<'buf, 'fds, E: Unmarshal<'buf, 'fds> + Clone> Unmarshal<'buf, 'fds> for Cow<'buf, [E]> {
     fn unmarshal(ctx: &mut UnmarshalContext<'fds, 'buf>) -> unmarshal::UnmarshalResult<Self> {
         unsafe {
             if E::valid_slice(ctx.byteorder) {
-                let src: &[E] = unmarshal_slice(ctx)?;
-                // SAFETY: One of requirements is for valid_slice it is only valid for 'buf
-                // Thus this lifetime cast is always valid
-                let l_expand: &'buf [E] = std::mem::transmute(src);
-                return Ok(Cow::Borrowed(l_expand));
+                let (content_slice, elem_cnt) = unmarshal_slice_bytes::<E>(ctx)?;
+                let ptr = content_slice.as_ptr();
+                if ptr.align_offset(std::mem::align_of::<E>()) == 0 {
+                    // SAFETY: One of requirements is for valid_slice it is only valid for 'buf
+                    // and the memory is suitably aligned for E
+                    let slice: &'buf [E] = std::slice::from_raw_parts(ptr.cast::<E>(), elem_cnt);
+                    return Ok(Cow::Borrowed(slice));
+                } else {
+                    return Ok(Cow::Owned(copy_slice_bytes(content_slice, elem_cnt)));
+                }
             }
         }
         Vec::unmarshal(ctx).map(Cow::Owned)
@@ -171,12 +187,8 @@ impl<'buf, 'fds, E: Unmarshal<'buf, 'fds>> Unmarshal<'buf, 'fds> for Vec<E> {
     fn unmarshal(ctx: &mut UnmarshalContext<'fds, 'buf>) -> unmarshal::UnmarshalResult<Self> {
         unsafe {
             if E::valid_slice(ctx.byteorder) {
-                let src = unmarshal_slice::<E>(ctx)?;
-                let mut ret = Vec::with_capacity(src.len());
-                let dst = ret.as_mut_ptr();
-                std::ptr::copy_nonoverlapping(src.as_ptr(), dst, src.len());
-                ret.set_len(src.len());
-                return Ok(ret);
+                let (content_slice, elem_cnt) = unmarshal_slice_bytes::<E>(ctx)?;
+                return Ok(copy_slice_bytes(content_slice, elem_cnt));
             }
         }
         ctx.align_to(4)?;
